@@ -893,7 +893,7 @@ fn packaging_case(cx: &mut Ctx, r: &mut Rng, label: &str, src: &str, p: &Bytecod
     // B = shaken are still loaded), and its own remap tables must validate against B's tables
     {
         let a = cx.model.ask(&format!("(shake {e})"));
-        if a.starts_with("equal") && a.contains(&format!("entry={se} ")) && a.contains("validate=true") {
+        if a.starts_with("equal") && a.contains(&format!("entry={se} ")) && a.contains("validate=true") && a.contains("idempotent=true") {
             cx.ev.hit("shake:model-equals-tree_shake");
         } else {
             cx.ev.hit("shake:model-differs");
